@@ -1016,95 +1016,478 @@ fn mode_prog(work: &str, seed: u64, thorough: bool) {
 }
 
 // ---------------------------------------------------------------------------------------------
-// mode pages: more than one page of 10 000 keys
+// mode pages: more than one (thorough: more than two) page of 10 000 keys per database, with
+// VARIABLE-length keys arranged so that the keys sitting at the page boundaries (sorted
+// positions 10 000, 20 000 and their neighbours) are proper prefixes of their successors, end in
+// 0xFF with "incremented" and longer successors, or are one-byte keys.  An iterator that fetches
+// the next page from a key computed out of the last key of the previous page (instead of
+// skipping `skip_total` entries) loses or repeats entries exactly there.
 // ---------------------------------------------------------------------------------------------
+const PAGE_KEYS: usize = 10_000;
+
+fn is_proper_prefix(a: &[u8], b: &[u8]) -> bool {
+	a.len() < b.len() && b.starts_with(a)
+}
+
+/// the tricky keys around one page boundary of database number `dbi`; returns (keys, target):
+/// `target` is the key that is to sit at sorted position 10 000·(j+1) (index 10 000·(j+1) − 1,
+/// the last key of a page); the keys after it are the first keys of the next page
+fn boundary_cluster(dbi: usize, cb: u8) -> (Vec<Vec<u8>>, Vec<u8>) {
+	let mut v: Vec<Vec<u8>> = vec![];
+	let target: Vec<u8>;
+	match dbi {
+		0 => {
+			// chain: every key is a proper prefix of the next one (k, k·00, k·00·00, …)
+			for n in 0..=20 {
+				let mut k = vec![cb];
+				k.extend(std::iter::repeat(0u8).take(n));
+				v.push(k);
+			}
+			v.push(vec![cb, 0x00, 0x01]);
+			v.push(vec![cb, 0x01]);
+			v.push(vec![cb, 0xff]);
+			v.push(vec![cb, 0xff, 0xff]);
+			target = {
+				let mut k = vec![cb];
+				k.extend(std::iter::repeat(0u8).take(8));
+				k
+			};
+		}
+		1 => {
+			// fan: k followed by k·b for b from 0x00 upward incl. 0xFF, each with its own children;
+			// the prefix [cb] of k is itself a key, and [cb, cb+1] follows the whole fan
+			let k = vec![cb, cb];
+			v.push(vec![cb]);
+			v.push(k.clone());
+			for b in [0x00u8, 0x01, 0x02, 0x7f, 0x80, 0xfe, 0xff] {
+				v.push(vec![cb, cb, b]);
+				v.push(vec![cb, cb, b, 0x00]);
+				v.push(vec![cb, cb, b, 0xff]);
+			}
+			v.push(vec![cb, cb + 1]);
+			target = k;
+		}
+		2 => {
+			// key ending in 0xFF, followed by longer keys sharing it, by keys sharing the stripped
+			// prefix, and by the stripped-prefix-incremented key [cb+1]
+			v.push(vec![cb]);
+			v.push(vec![cb, 0x00]);
+			v.push(vec![cb, 0xfe]);
+			v.push(vec![cb, 0xfe, 0xff]);
+			v.push(vec![cb, 0xff]);
+			v.push(vec![cb, 0xff, 0x00]);
+			v.push(vec![cb, 0xff, 0x01]);
+			v.push(vec![cb, 0xff, 0xff]);
+			v.push(vec![cb, 0xff, 0xff, 0xff]);
+			v.push(vec![cb, 0xff, 0xff, 0xff, 0x00]);
+			v.push(vec![cb + 1]);
+			v.push(vec![cb + 1, 0x00]);
+			v.push(vec![cb + 1, 0x00, 0x00]);
+			target = vec![cb, 0xff];
+		}
+		_ => {
+			// one-byte boundary key: stripping anything from it leaves the empty string
+			v.push(vec![cb]);
+			v.push(vec![cb, 0x00]);
+			v.push(vec![cb, 0x00, 0x00]);
+			v.push(vec![cb, 0x00, 0xff]);
+			v.push(vec![cb, 0x01]);
+			v.push(vec![cb, 0xff]);
+			v.push(vec![cb, 0xff, 0xff]);
+			v.push(vec![cb + 1]);
+			target = vec![cb];
+		}
+	}
+	v.sort();
+	v.dedup();
+	(v, target)
+}
+
+/// filler keys of segment `seg` (first byte `fb`): triples x, x·00, x·FF with x of 4 bytes, so that
+/// also an unplanned boundary position mostly hits a proper-prefix pair
+fn filler(fb: u8, i: usize) -> Vec<u8> {
+	let x = i / 3;
+	let mut k = vec![fb, (x >> 16) as u8, (x >> 8) as u8, x as u8];
+	match i % 3 {
+		1 => k.push(0x00),
+		2 => k.push(0xff),
+		_ => {}
+	}
+	k
+}
+
+/// sorted key population of database number `dbi` with `nbound` planned page boundaries
+fn page_population(dbi: usize, nbound: usize) -> (Vec<Vec<u8>>, Vec<Vec<u8>>, Vec<Vec<u8>>) {
+	let mut keys: Vec<Vec<u8>> = vec![vec![0x00], vec![0x00, 0x00], vec![0x01]];
+	let mut targets = vec![];
+	let mut clusters: Vec<Vec<u8>> = vec![];
+	for j in 0..nbound {
+		let fb = 0x10 + 0x60 * j as u8; // 0x10, 0x70
+		let cb = 0x50 + 0x40 * j as u8; // 0x50, 0x90
+		let (cl, target) = boundary_cluster(dbi, cb);
+		let tpos = cl.iter().position(|k| *k == target).unwrap();
+		let want_index = PAGE_KEYS * (j + 1) - 1;
+		let nfill = want_index - tpos - keys.len();
+		for i in 0..nfill {
+			keys.push(filler(fb, i));
+		}
+		clusters.extend(cl.iter().cloned());
+		keys.extend(cl);
+		targets.push(target);
+	}
+	let fb = 0x10 + 0x60 * nbound as u8;
+	for i in 0..(23 + 3 * dbi) {
+		keys.push(filler(fb, i));
+	}
+	keys.push(vec![0xff]);
+	keys.push(vec![0xff, 0x00]);
+	keys.push(vec![0xff, 0xff]);
+	keys.push(vec![0xff, 0xff, 0xff]);
+	let mut sorted = keys.clone();
+	sorted.sort();
+	sorted.dedup();
+	assert_eq!(sorted, keys, "population is built in sorted order without duplicates");
+	for (j, t) in targets.iter().enumerate() {
+		assert_eq!(&keys[PAGE_KEYS * (j + 1) - 1], t);
+	}
+	(keys, targets, clusters)
+}
+
+fn page_val(k: &[u8]) -> Vec<u8> {
+	if k.len() % 5 == 0 {
+		vec![]
+	} else {
+		vec![(fnv32(k) % 251) as u8]
+	}
+}
+
+#[derive(Default)]
+struct PageStats {
+	iterations: u64,
+	multi_page: u64,
+	boundaries: u64,
+	last_is_prefix_of_next: u64,
+	last_ends_ff: u64,
+	last_one_byte: u64,
+	first_is_prefix_of_next: u64,
+	via_batch: u64,
+	via_store: u64,
+	with_uncommitted: u64,
+}
+
+fn parse_item_keys(s: &str) -> Option<Vec<Vec<u8>>> {
+	let inner = s.strip_prefix('[')?.strip_suffix(']')?;
+	if inner.is_empty() {
+		return Some(vec![]);
+	}
+	let mut v = vec![];
+	for it in inner.split(',') {
+		let k = it.split('=').next()?;
+		let mut b = vec![];
+		if k != "-" {
+			if k.len() % 2 != 0 {
+				return None;
+			}
+			for i in (0..k.len()).step_by(2) {
+				b.push(u8::from_str_radix(&k[i..i + 2], 16).ok()?);
+			}
+		}
+		v.push(b);
+	}
+	Some(v)
+}
+
+/// the iterator oracle in Rust: `got` (formatted answer) against the sorted expected items
+fn check_iteration(
+	cx: &mut Cx,
+	ps: &mut PageStats,
+	what: &str,
+	via_batch: bool,
+	uncommitted: bool,
+	got: &str,
+	want: &[(Vec<u8>, Vec<u8>)],
+) {
+	ps.iterations += 1;
+	if via_batch {
+		ps.via_batch += 1;
+	} else {
+		ps.via_store += 1;
+	}
+	if uncommitted {
+		ps.with_uncommitted += 1;
+	}
+	if want.len() > PAGE_KEYS {
+		ps.multi_page += 1;
+		let mut b = PAGE_KEYS;
+		while b < want.len() {
+			ps.boundaries += 1;
+			let last = &want[b - 1].0;
+			let next = &want[b].0;
+			if is_proper_prefix(last, next) {
+				ps.last_is_prefix_of_next += 1;
+			}
+			if last.last() == Some(&0xff) {
+				ps.last_ends_ff += 1;
+			}
+			if last.len() == 1 {
+				ps.last_one_byte += 1;
+			}
+			if b + 1 < want.len() && is_proper_prefix(next, &want[b + 1].0) {
+				ps.first_is_prefix_of_next += 1;
+			}
+			b += PAGE_KEYS;
+		}
+	}
+	if got == fmt_items(want) {
+		return;
+	}
+	let msg = match parse_item_keys(got) {
+		None => format!("answered {}", &got[..got.len().min(80)]),
+		Some(gk) => {
+			use std::collections::BTreeMap as M;
+			let mut cnt: M<&[u8], usize> = M::new();
+			for k in gk.iter() {
+				*cnt.entry(k.as_slice()).or_insert(0) += 1;
+			}
+			let skipped: Vec<&Vec<u8>> = want.iter().map(|e| &e.0).filter(|k| !cnt.contains_key(k.as_slice())).collect();
+			let dup: Vec<&[u8]> = cnt.iter().filter(|(_, c)| **c > 1).map(|(k, _)| *k).collect();
+			let wantset: std::collections::BTreeSet<&[u8]> = want.iter().map(|e| e.0.as_slice()).collect();
+			let extra = gk.iter().filter(|k| !wantset.contains(k.as_slice())).count();
+			let first_diff = gk
+				.iter()
+				.zip(want.iter())
+				.position(|(a, b)| *a != b.0)
+				.unwrap_or(gk.len().min(want.len()));
+			format!(
+				"yielded {} items, expected {}; {} skipped (first skipped {}), {} duplicated (first {}), {} unexpected; first difference at sorted position {} (expected key {}, key before it {})",
+				gk.len(),
+				want.len(),
+				skipped.len(),
+				skipped.first().map(|k| hex(k)).unwrap_or_else(|| "none".into()),
+				dup.len(),
+				dup.first().map(|k| hex(k)).unwrap_or_else(|| "none".into()),
+				extra,
+				first_diff + 1,
+				want.get(first_diff).map(|e| hex(&e.0)).unwrap_or_else(|| "end".into()),
+				if first_diff > 0 { want.get(first_diff - 1).map(|e| hex(&e.0)).unwrap_or_default() } else { "start".into() }
+			)
+		}
+	};
+	cx.oracle_fail(format!("iterator skipped/duplicated keys: {}: {}", what, msg));
+}
+
+/// Batch::iter over every database inside the open (child) batch
+fn pages_iter_batch(cx: &mut Cx, ps: &mut PageStats, b: &Batch<'_>, what: &str) {
+	for db in all_dbs() {
+		let res = collect_iter(b.iter(db, kvpair));
+		if let Ok(v) = &res {
+			cx.st.iter_max_len = cx.st.iter_max_len.max(v.len());
+		}
+		let ans = fmt_iter(&res);
+		let want = Shadow::items(&cx.sh.view(), db);
+		check_iteration(cx, ps, &format!("Batch::iter db {} {}", db_tok(db), what), true, true, &ans, &want);
+		cx.st.op("iter");
+		cx.line(&format!("kv iter {}", db_tok(db)), &ans);
+	}
+}
+
+/// Store::iter over every database, from the other thread and from this one
+fn pages_iter_store(cx: &mut Cx, ps: &mut PageStats, what: &str, batch_open: bool) {
+	for (n, db) in all_dbs().into_iter().enumerate() {
+		let main = n % 2 == 1;
+		let ans = if main {
+			fmt_iter(&collect_iter(cx.store().iter(db, kvpair)))
+		} else {
+			cx.reader.ask(Req::Iter(db))
+		};
+		let who = if main { "main" } else { "t1" };
+		let want = Shadow::items(&cx.sh.committed, db);
+		check_iteration(cx, ps, &format!("Store::iter ({}) db {} {}", who, db_tok(db), what), false, batch_open, &ans, &want);
+		cx.st.op("read-outside iter");
+		cx.line(&format!("kv read-outside {} iter {}", who, db_tok(db)), &ans);
+	}
+}
+
+fn pages_write(cx: &mut Cx, b: &mut Batch<'_>, db: Db, key: &[u8], v: Option<Vec<u8>>) {
+	match v {
+		Some(v) => {
+			let ans = fmt_unit(b.put(db, key, &v));
+			if ans != "ok" {
+				cx.oracle_fail(format!("put {} {} failed in pages run", db_tok(db), hex(key)));
+			}
+			cx.sh.write((db_id(db), key.to_vec()), Some(v.clone()));
+			cx.st.op("put");
+			cx.line(&format!("kv put {} {} {}", db_tok(db), hex(key), valtok(&v)), &ans);
+		}
+		None => {
+			let ans = fmt_unit(b.delete(db, key));
+			cx.sh.write((db_id(db), key.to_vec()), None);
+			cx.st.op("del");
+			cx.line(&format!("kv del {} {}", db_tok(db), hex(key)), &ans);
+		}
+	}
+}
+
 fn mode_pages(work: &str, seed: u64, thorough: bool) {
 	let mut cx = Cx::new(&format!("{}/pages", work), seed);
-	let total: u32 = if thorough { 20_017 } else { 10_023 };
-	let db = Some(b'A');
+	let mut ps = PageStats::default();
+	let nbound = if thorough { 2 } else { 1 };
+	let dbs = all_dbs();
+	let pops: Vec<(Vec<Vec<u8>>, Vec<Vec<u8>>, Vec<Vec<u8>>)> =
+		(0..dbs.len()).map(|i| page_population(i, nbound)).collect();
 	let store = cx.store();
-	// descending insertion order; a few other-db keys around
+
+	// --- phase 1a: the filler keys, committed in batches of 2000 puts.  (Not one batch: the map
+	// is only enlarged in Store::batch(), a single batch of this volume does not fit the 1 MiB
+	// test-mode map.)  Descending order.
+	{
+		let mut todo: Vec<(Db, Vec<u8>)> = vec![];
+		for (i, db) in dbs.iter().enumerate().rev() {
+			for k in pops[i].0.iter().rev() {
+				if !pops[i].2.contains(k) {
+					todo.push((*db, k.clone()));
+				}
+			}
+		}
+		for chunk in todo.chunks(2000) {
+			let mut b = store.batch().unwrap();
+			cx.sh.stack.push(vec![]);
+			cx.st.op("begin");
+			cx.line("kv begin", "ok");
+			for (db, k) in chunk {
+				pages_write(&mut cx, &mut b, *db, k, Some(page_val(k)));
+			}
+			let ans = fmt_unit(b.commit());
+			if ans != "ok" {
+				cx.oracle_fail("commit of a filler batch failed".to_string());
+			}
+			cx.sh.commit();
+			cx.st.commits[1] += 1;
+			cx.line("kv commit", &ans);
+		}
+	}
+	// --- phase 1b: the boundary clusters of every database in one batch: iterated while they are
+	// uncommitted (Batch::iter sees them merged into the committed fillers, Store::iter does not),
+	// then committed
 	{
 		let mut b = store.batch().unwrap();
 		cx.sh.stack.push(vec![]);
+		cx.st.op("begin");
 		cx.line("kv begin", "ok");
-		for i in (0..total).rev() {
-			let key = i.to_be_bytes().to_vec();
-			let v = vec![(i % 251) as u8];
-			let ans = fmt_unit(b.put(db, &key, &v));
-			cx.sh.write((db_id(db), key.clone()), Some(v.clone()));
-			cx.line(&format!("kv put {} {} {}", db_tok(db), hex(&key), hex(&v)), &ans);
+		for (i, db) in dbs.iter().enumerate().rev() {
+			for k in pops[i].2.iter().rev() {
+				pages_write(&mut cx, &mut b, *db, k, Some(page_val(k)));
+			}
 		}
-		let ans = fmt_unit(b.put(Some(b'B'), b"x", b"y"));
-		cx.sh.write((db_id(Some(b'B')), b"x".to_vec()), Some(b"y".to_vec()));
-		cx.line(&format!("kv put 66 {} {}", hex(b"x"), hex(b"y")), &ans);
-		// iterate inside the batch (nested read txn), then commit
-		let res = collect_iter(b.iter(db, kvpair));
-		cx.st.iter_max_len = res.as_ref().map(|v| v.len()).unwrap_or(0);
-		if res.as_ref().map(|v| v.len()).unwrap_or(0) != total as usize {
-			cx.oracle_fail(format!("batch iterator over {} keys yielded {:?} items", total, res.as_ref().map(|v| v.len())));
-		}
-		cx.line(&format!("kv iter {}", db_tok(db)), &fmt_iter(&res));
+		pages_iter_batch(&mut cx, &mut ps, &b, "(boundary keys uncommitted)");
+		pages_iter_store(&mut cx, &mut ps, "(boundary keys not yet committed)", true);
 		let ans = fmt_unit(b.commit());
+		if ans != "ok" {
+			cx.oracle_fail("commit of the boundary-cluster batch failed".to_string());
+		}
 		cx.sh.commit();
+		cx.st.commits[1] += 1;
 		cx.line("kv commit", &ans);
 	}
-	// outside iterator, other thread, and same thread
-	let a = cx.reader.ask(Req::Iter(db));
-	let want = fmt_items(&Shadow::items(&cx.sh.committed, db));
-	if a != want {
-		cx.oracle_fail(format!("Store::iter over {} keys: wrong result (len {} vs {})", total, a.len(), want.len()));
-	}
-	cx.line(&format!("kv read-outside t1 iter {}", db_tok(db)), &a);
-	// second batch: delete around the page boundary and some random ones, iterate inside, drop or commit
-	for round in 0..2 {
+	pages_iter_store(&mut cx, &mut ps, "(all keys committed)", false);
+
+	// --- phase 2: shift the boundary by one key per round (delete the smallest remaining key of
+	// every database) and add uncommitted keys next to the boundary keys
+	let rounds = 5;
+	for round in 0..rounds {
 		let mut b = store.batch().unwrap();
 		cx.sh.stack.push(vec![]);
+		cx.st.op("begin");
 		cx.line("kv begin", "ok");
-		let mut dels: Vec<u32> = vec![0, 9_998, 9_999, 10_000, 10_001, total - 1];
-		for _ in 0..40 {
-			dels.push(cx.rng.below(total as u64) as u32);
+		let mut body = |cx: &mut Cx, ps: &mut PageStats, bb: &mut Batch<'_>, tag: &str| {
+			for (i, db) in dbs.iter().enumerate() {
+				// smallest committed key of this db goes away: every later key moves up one position
+				let first = Shadow::items(&cx.sh.view(), *db).first().map(|e| e.0.clone());
+				if let Some(k) = first {
+					pages_write(cx, bb, *db, &k, None);
+				}
+				// new uncommitted keys right behind the boundary targets (do not move them)
+				for t in pops[i].1.iter() {
+					let mut k = t.clone();
+					k.push(0x00);
+					k.push(0x80 + round as u8);
+					pages_write(cx, bb, *db, &k, Some(vec![round as u8]));
+				}
+			}
+			pages_iter_batch(cx, ps, bb, tag);
+		};
+		match round {
+			0 => {
+				// top-level batch, dropped: leaves no trace
+				body(&mut cx, &mut ps, &mut b, "(round 0, uncommitted deletes and puts, then dropped)");
+				pages_iter_store(&mut cx, &mut ps, "(round 0, batch open)", true);
+				drop(b);
+				cx.sh.stack.pop();
+				cx.st.drops[1] += 1;
+				cx.line("kv drop", "ok");
+			}
+			1 => {
+				// in a child batch: iterate in the child, commit it, iterate in the parent, commit
+				{
+					let mut c = b.child().unwrap();
+					cx.sh.stack.push(vec![]);
+					cx.st.max_depth = 2;
+					cx.line("kv child", "ok");
+					body(&mut cx, &mut ps, &mut c, "(round 1, inside a child batch)");
+					let ans = fmt_unit(c.commit());
+					cx.sh.commit();
+					cx.st.commits[2] += 1;
+					cx.line("kv commit", &ans);
+				}
+				pages_iter_batch(&mut cx, &mut ps, &b, "(round 1, parent after child commit)");
+				let ans = fmt_unit(b.commit());
+				cx.sh.commit();
+				cx.st.commits[1] += 1;
+				cx.line("kv commit", &ans);
+			}
+			2 => {
+				// snapshot iterators of the other thread held across the commit, read across the
+				// page boundary only after it
+				body(&mut cx, &mut ps, &mut b, "(round 2, uncommitted)");
+				let db = dbs[round % dbs.len()];
+				let snap = Shadow::items(&cx.sh.committed, db);
+				let a = cx.reader.ask(Req::ItOpen(db));
+				cx.line(&format!("kv it-open t1 {}", db_tok(db)), &a);
+				let a1 = cx.reader.ask(Req::ItNext(PAGE_KEYS - 3));
+				cx.line(&format!("kv it-next t1 {}", PAGE_KEYS - 3), &a1);
+				let ans = fmt_unit(b.commit());
+				cx.sh.commit();
+				cx.st.commits[1] += 1;
+				cx.line("kv commit", &ans);
+				let a2 = cx.reader.ask(Req::ItNext(1_000_000));
+				cx.line("kv it-next t1 1000000", &a2);
+				let a = cx.reader.ask(Req::ItClose);
+				cx.line("kv it-close t1", &a);
+				cx.st.snap_iters_across_commit += 1;
+				// both parts together must be the pre-commit snapshot
+				let joined = match (a1.strip_suffix(']'), a2.strip_prefix('[')) {
+					(Some(x), Some(y)) if a2 != "[]" => format!("{},{}", x, y),
+					_ => a1.clone(),
+				};
+				check_iteration(&mut cx, &mut ps, &format!("Store::iter snapshot held across a commit, db {}", db_tok(db)), false, true, &joined, &snap);
+			}
+			_ => {
+				body(&mut cx, &mut ps, &mut b, "(uncommitted)");
+				let ans = fmt_unit(b.commit());
+				cx.sh.commit();
+				cx.st.commits[1] += 1;
+				cx.line("kv commit", &ans);
+			}
 		}
-		for i in dels {
-			let key = i.to_be_bytes().to_vec();
-			let ans = fmt_unit(b.delete(db, &key));
-			cx.sh.write((db_id(db), key.clone()), None);
-			cx.line(&format!("kv del {} {}", db_tok(db), hex(&key)), &ans);
-		}
-		// open a snapshot iterator on the other thread, read across the first page boundary later
-		let a = cx.reader.ask(Req::ItOpen(db));
-		cx.line(&format!("kv it-open t1 {}", db_tok(db)), &a);
-		let a = cx.reader.ask(Req::ItNext(9_990));
-		cx.line("kv it-next t1 9990", &a);
-		let res = collect_iter(b.iter(db, kvpair));
-		let want = Shadow::items(&cx.sh.view(), db);
-		if res.as_ref().ok() != Some(&want) {
-			cx.oracle_fail("batch iterator after deletes around the page boundary differs from the batch view".to_string());
-		}
-		cx.line(&format!("kv iter {}", db_tok(db)), &fmt_iter(&res));
-		if round == 0 {
-			drop(b);
-			cx.sh.stack.pop();
-			cx.line("kv drop", "ok");
-		} else {
-			let ans = fmt_unit(b.commit());
-			cx.sh.commit();
-			cx.line("kv commit", &ans);
-		}
-		let a = cx.reader.ask(Req::ItNext(1_000_000));
-		cx.line("kv it-next t1 1000000", &a);
-		let a = cx.reader.ask(Req::ItClose);
-		cx.line("kv it-close t1", &a);
-		cx.st.snap_iters_across_commit += 1;
-		let a = cx.reader.ask(Req::Iter(db));
-		let want = fmt_items(&Shadow::items(&cx.sh.committed, db));
-		if a != want {
-			cx.oracle_fail("Store::iter after the second batch differs from the committed state".to_string());
-		}
-		cx.line(&format!("kv read-outside t1 iter {}", db_tok(db)), &a);
+		pages_iter_store(&mut cx, &mut ps, &format!("(after round {})", round), false);
 	}
 	cx.obs();
-	cx.out.raw(&format!("#STAT pages keys in one db {} (page size 10000 => {} pages)", total, total / 10_000 + 1));
+	let sizes: Vec<String> = pops.iter().map(|p| p.0.len().to_string()).collect();
+	cx.out.raw(&format!(
+		"#STAT pages keys per database {} (variable-length keys, planned boundaries per database {}); iterations {} ({} through Batch::iter, {} through Store::iter, {} while uncommitted writes existed), {} of them longer than one page; page boundaries crossed {}: boundary key (last of a page) was a proper prefix of its successor at {}, ended in 0xFF at {}, was a one-byte key at {}; first key of the next page was a proper prefix of its successor at {}",
+		sizes.join("/"), nbound, ps.iterations, ps.via_batch, ps.via_store, ps.with_uncommitted, ps.multi_page,
+		ps.boundaries, ps.last_is_prefix_of_next, ps.last_ends_ff, ps.last_one_byte, ps.first_is_prefix_of_next
+	));
 	cx.print_stats("pages");
 	cx.finish();
 }
